@@ -1,9 +1,11 @@
 """C09  A parser's answers do not depend on what it was asked before.
 
-Domain   Hypothesis RuleBasedStateMachine: one *reused* parser (subcommands with a config argument each, a subclass argument with a
-         default spec, a parse link, a list argument, a top-level config argument) and a second unrelated reused parser whose calls are
-         interleaved.  Rules with generated arguments: parse_args, parse_object, parse_string, parse_env, get_defaults, dump, validate,
-         instantiate_classes, --help, --X.help, --print_config[=flags] at either level, and failing variants of each.  <= 12 steps.
+Domain   Hypothesis RuleBasedStateMachine over three *reused* parsers whose calls are interleaved: A (subcommands two levels deep with
+         a config argument each, a subclass argument with a default spec, a parse link, a list argument, a top-level config argument),
+         B (unrelated; lazy instances, a Callable-typed argument with class help) and C (part of its defaults come from a default config
+         file with an append key and a class change; a class group with an Optional[dataclass] parameter).  Rules with generated
+         arguments: parse_args, parse_object (also defaults=False), parse_string, parse_env, get_defaults, dump, validate,
+         instantiate_classes, --help, --X.help, --print_config[=flags] at every level, and failing variants of each.  <= 12 steps.
 Oracle   differential after every step: (result | ArgumentError text | exit code + stdout) on the reused parser equals the same call on
          a freshly built parser from the same recipe.
 A case is the history (plain data); run_case replays it without Hypothesis.
@@ -28,7 +30,7 @@ ID = "C09"
 LEVEL = "exploration"
 ENGINE = "hypothesis-stateful"
 TECHNIQUE = "stateful property-based testing (Hypothesis rule-based machine): every step on a reused parser is compared with the same call on a freshly built identical parser"
-LEVEL_TEXT = ("Thousands of random call histories (<= 12 steps, two interleaved parsers, successful / failing / help-printing / config-printing "
+LEVEL_TEXT = ("Thousands of random call histories (<= 12 steps, three interleaved parsers - subcommands two levels deep, a parser fed by a default config file -, successful / failing / help-printing / config-printing "
               "calls) per run; each step's complete observable outcome must equal that of a fresh parser. Exploration: the operation grammar bounds it.")
 LEVEL_NOTE = ("Trusted: the outcome canonicaliser (results are compared by their yaml dump + typed repr, exits by code and output). The fresh "
               "side is checked to be deterministic in the self-test. Threads / async contexts are out of scope.")
